@@ -426,12 +426,16 @@ where
 
 impl<T, L: Lock> Drop for SharedObservable<T, L> {
     fn drop(&mut self) {
+        #[cfg(feature = "__verif")]
+        crate::verif_hooks::point("sdrop:enter");
         // Only close the state if there are no other clones of this
         // `SharedObservable`.
         if Arc::strong_count(&self._num_clones) == 1 {
             // If there are no other clones, obtaining a read lock can't fail.
             L::read_noblock(&self.state).close();
         }
+        #[cfg(feature = "__verif")]
+        crate::verif_hooks::point("sdrop:decided");
     }
 }
 
@@ -453,6 +457,8 @@ impl<T, L: Lock> WeakObservable<T, L> {
     /// Returns `None` if the inner value has already been dropped.
     pub fn upgrade(&self) -> Option<SharedObservable<T, L>> {
         let state = Weak::upgrade(&self.state)?;
+        #[cfg(feature = "__verif")]
+        crate::verif_hooks::point("upgrade:between");
         let _num_clones = Weak::upgrade(&self._num_clones)?;
         Some(SharedObservable { state, _num_clones })
     }
